@@ -449,9 +449,13 @@ Fixpoint mwalk (s : mstate) (steps obs : list val) : N :=
       let data := match more with VH h :: _ => hex_bytes h | _ => [] end in
       let rl := match more with _ :: VL l :: _ => fold_right (fun v acc => match val_NL v with Some x => x :: acc | None => acc end) [] l
                 | _ => [] end in
-      match val_NL nums with
-      | Some a => let '(v, s') := mstep s kind a data rl res in if v =? 0 then mwalk s' rs ro else v
-      | None => 0
+      match res with
+      | VS "panic" => 5            (* C05: the step brought the backend side down *)
+      | _ =>
+          match val_NL nums with
+          | Some a => let '(v, s') := mstep s kind a data rl res in if v =? 0 then mwalk s' rs ro else v
+          | None => 0
+          end
       end
   | _, _ => 0
   end.
